@@ -1143,7 +1143,7 @@ def _(a, T):
     return (o, len(o), HSTRPPacketType.from_bytes(T.bytes(a["data"])[:1] or b"\x00"), HSTRPPacketType())
 
 
-@entry("hrnp.wrap_hdap", "hytera", dict(data=OneOf(Vec(V_RCP[:4] + V_LP[:1] + V_TMP[:1] + V_RRS[:1]), S_HDAP), pn=Int(0, 65535)), ncanon=4,
+@entry("hrnp.wrap_hdap", "hytera", dict(data=OneOf(Vec(V_RCP[:4] + V_LP[:1] + V_TMP[:1] + V_RRS[:1]), S_LP, S_RRS), pn=Int(0, 65535)), ncanon=4,
        doc="HRNP DATA packet built around a parsed HDAP object, serialised")
 def _(a, T):
     from okdmr.dmrlib.hytera.pdu.hdap import HDAP
@@ -1154,7 +1154,7 @@ def _(a, T):
     return (o.as_bytes(), len(o), repr(o))
 
 
-@entry("hstrp.wrap_hdap", "hytera", dict(data=OneOf(Vec(V_RCP[:4] + V_LP[:1] + V_TMP[:1] + V_RRS[:1]), S_HDAP), sn=Int(0, 65535)), ncanon=4,
+@entry("hstrp.wrap_hdap", "hytera", dict(data=OneOf(Vec(V_RCP[:4] + V_LP[:1] + V_TMP[:1] + V_RRS[:1]), S_LP, S_RRS), sn=Int(0, 65535)), ncanon=4,
        doc="HSTRP packet built around a parsed HDAP object and an options object, serialised")
 def _(a, T):
     from okdmr.dmrlib.hytera.pdu.hdap import HDAP
@@ -1331,7 +1331,11 @@ RULE = (
     "(argument, exception type)); pairs runs (rejected variant, first canonical call of every entry of the group) as exact ordered pairs, history has the kind "
     "rejected_then_valid.  Object arguments (kaitai IPSC / MMDVM objects, Burst, HDAP, GPSData, MBXML document, DataHeader passed to other entry points): the "
     "object's attribute tree is snapshotted before and compared after the call (argument_object_unchanged); same_object steps build the object once and run "
-    "X(obj), X(obj) and X(obj), Y(obj), X(obj) for entries taking the same type of object.  Non-trivial: >= 2 calls of the same group in one history (the later one is compared against its run in a fresh state); distinct by hash of the "
+    "X(obj), X(obj) and X(obj), Y(obj), X(obj) for entries taking the same type of object.  Unusual variants: one enum-coded switch (opcode, MFID, format ... given as a choice of codes) set to a code of the same width the spec does not list; "
+    "pairs runs (unusual variant, first canonical call of every entry of the group and every mode of the entry itself), history has unusual_then_ordinary.  "
+    "Rejected variants are also derived under every setting of the entry's boolean mode flags (failed call with debug=True, then valid call).  "
+    "serialise_later steps: 2..4 calls keep their results, then every result is observed / serialised again (last first) after the others existed.  "
+    "Representation variants: a plain call may build its bit-string arguments as little-endian or frozen bitarrays (same bit sequence).  Non-trivial: >= 2 calls of the same group in one history (the later one is compared against its run in a fresh state); distinct by hash of the "
     "history.  Clock sub-check: the same call lists evaluated in four fresh interpreters (clocks pinned to 2026-09-26, 1971-01-02, 2099-12-30 + different random "
     "streams; first clock again with PYTHONMALLOC=debug so that uninitialised memory reads 0xCD); besides all canonical calls and generated histories it feeds "
     "GPS / LP / MBXML info-time inputs whose dates lie the day before / of / after each clock and in the two-digit years 00, 24..27, 31, 69..72, 98, 99."
@@ -1354,6 +1358,10 @@ ASSUMPTIONS = [
     "object arguments: an object explicitly passed to another entry point is snapshotted (full attribute tree); the *receiver* of the methods under test is "
     "not (its private lazy memo fields, e.g. Burst._target_radio_id_resolve_attempt, are its own business) - for receivers only the results of repeated calls "
     "are compared",
+    "representation variants (little-endian / frozen bitarray arguments) are judged by purity only: the call must give the same observation as the same call "
+    "(same container) in a fresh state and leave the buffer unchanged; whether the value computed for a little-endian container is *right* is C05/C06's business",
+    "pinned clocks: 2026-09-26 (the project's present), 1971-01-02 and 2099-12-30, 12:00 UTC; patched before the library is imported (datetime.date / "
+    "datetime.datetime subclasses, time.time, time.time_ns), so every library module sees them",
     "exemptions for argument buffers: HammingCommon.check_and_correct and BPTC19696.repair_if_necessary(deinterleaved=True) (documented in-place repair)",
     "a result that differs between CPython's normal and debug (0xCD-filling) allocator depends on uninitialised memory, i.e. on what earlier calls left "
     "on the heap; this is judged under the first clause of the statement (same arguments, same result)",
@@ -2106,8 +2114,8 @@ def drv_clock(ctx: Ctx, sub: SubCheck):
 
 
 SUBCHECKS = [
-    SubCheck("history", oracle_history, drv_history, "Hypothesis histories of 1..12 steps (plain calls, rejected-then-valid, scribble-and-repeat, argument re-use, same-object-again): child A (history) vs children B_i (step alone); argument buffers and argument objects unchanged"),
-    SubCheck("pairs", oracle_history, drv_pairs, "ordered pairs of canonical calls (writer, reader); every mode of every entry: same-shape ordered pairs, argument re-use, scribble-and-repeat; rejected variant then every entry of the group; same-object steps; same differential oracle"),
+    SubCheck("history", oracle_history, drv_history, "Hypothesis histories of 1..12 steps (plain calls, rejected-then-valid, unusual-then-ordinary, serialise-later, representation variants, scribble-and-repeat, argument re-use, same-object-again): child A (history) vs children B_i (step alone); argument buffers and argument objects unchanged"),
+    SubCheck("pairs", oracle_history, drv_pairs, "ordered pairs of canonical calls (writer, reader); every mode of every entry: same-shape ordered pairs, argument re-use, scribble-and-repeat; rejected / unusual variant then every entry of the group; same-object and serialise-later steps; little-endian / frozen containers; same differential oracle"),
     SubCheck("clock", oracle_clock, drv_clock, "four fresh interpreters: parsing calls agree under clocks pinned to 2026-09-26, 1971-01-02 and 2099-12-30 (inputs with dates on both sides of each clock) and different random streams; all calls agree under a 0xCD-filling allocator"),
 ]
 
